@@ -645,7 +645,7 @@ func (r *runner) runCli(f []string) string {
 		return "errs ## " + cc.errsDiag()
 	case "failwrite":
 		n, _ := strconv.Atoi(f[3])
-		cc.mc.out.setFailAfter(cc.mc.out.total + int64(n))
+		cc.mc.out.setFailAfter(cc.mc.out.written() + int64(n))
 		return "ok"
 	case "gauges":
 		open, next, pend, queued := http2.VerifConnGauges(cc.c)
